@@ -150,11 +150,75 @@ def _stage1(job):
         shutil.rmtree(d, ignore_errors=True)
 
 
+def _synth_centres(job, g):
+    """residue centres drawn by the generator itself (own little walk, wrapped into the box): -mc input that does
+    not depend on an earlier build of the tree under test; bonded centres often lie across a box face.
+    Returns a structure like read_gro() with ONE pseudo atom per atom of the topology (all atoms of a residue on its
+    centre), or None."""
+    import math
+    from gen import topgen
+    box = job["opts"].get("box")
+    if box is None:
+        return None
+    spec = job["spec"]
+    mts = {m["name"]: m for m in spec["moltypes"]}
+    truth = topgen.ground_truth(spec)
+    placed = []
+    atoms = []
+    for inst, (molname, alist) in enumerate(truth):
+        mt = mts[molname]
+        n = len(mt["residues"])
+        adj = {k: [] for k in range(n)}
+        for a, b in mt["edges"]:
+            adj[a].append(b)
+            adj[b].append(a)
+        pos = {}
+        order = [0]
+        seen = {0}
+        for k in order:
+            for nb in adj[k]:
+                if nb not in seen:
+                    seen.add(nb)
+                    order.append(nb)
+        for k in order:
+            parent = next((p for p in adj[k] if p in pos), None)
+            for _try in range(200):
+                if parent is None:
+                    cand = [g.uniform(0.05, box[d] - 0.05) for d in range(3)]
+                else:
+                    v = [g.gauss(0, 1) for _ in range(3)]
+                    nv = math.sqrt(sum(x * x for x in v)) or 1.0
+                    cand = [(pos[parent][d] + 0.55 * v[d] / nv) % box[d] for d in range(3)]
+                cand = [min(max(round(c, 3), 0.002), round(box[d] - 0.003, 3)) for d, c in enumerate(cand)]
+                ok = True
+                for q in placed:
+                    dd = [abs(cand[d] - q[d]) for d in range(3)]
+                    dd = [min(x, box[d] - x) for d, x in enumerate(dd)]
+                    if sum(x * x for x in dd) < 0.4 ** 2:
+                        ok = False
+                        break
+                if ok:
+                    break
+            else:
+                return None
+            pos[k] = cand
+            placed.append(cand)
+        for (resid, resname, aname, _t) in alist:
+            atoms.append({"resid": resid, "resname": resname, "atomname": aname, "xyz": tuple(pos[resid - 1])})
+    return {"atoms": atoms, "box": list(box)}
+
+
 def add_coordinates(job, g, profile, force_res=None):
     """Turn `job` into a two-stage job: supply (part of) an earlier build as -c / -mc input."""
     from gen import topgen
     from oracles.final_state import write_gro_text
-    gro = _stage1(job)
+    gro = None
+    synth = False
+    if g.random() < profile.get("p_synth_centres", 0.0):
+        gro = _synth_centres(job, g)
+        synth = gro is not None
+    if gro is None:
+        gro = _stage1(job)
     if gro is None:
         return False
     spec = job["spec"]
@@ -179,6 +243,9 @@ def add_coordinates(job, g, profile, force_res=None):
         for cc in (c, c2):
             if not (np.all(cc >= 0.0) and np.all(cc <= np.array(gro["box"][:3]) - 1e-3)):
                 return False
+    if synth:
+        profile = dict(profile, coord_modes=["meta_full", "meta_prefix", "meta_prefix", "meta_res", "meta_res_prefix"])
+        job["synthetic_centres"] = True
     mode = g.choice(profile.get("coord_modes", ["full", "prefix", "prefix", "meta_full", "meta_prefix", "res", "res_prefix",
                                                 "ign", "ign", "meta_res", "meta_res_prefix"]))
     kind = "meta" if mode.startswith("meta") else "mol"
